@@ -24,6 +24,10 @@ CONSTANTS
   FixOrphanParent, \* BOOLEAN: TRUE = code as fixed (an update whose parent is orphaned / completed is rejected); FALSE = pinned original
   FixBteBranch,    \* BOOLEAN: TRUE = code as fixed (a BaseException leaving a branch still completes the executor)
   FixEmpty,        \* BOOLEAN: TRUE = code as fixed (zero branches return an empty result at once)
+  FixAncestorWalk, \* BOOLEAN: TRUE = code as fixed (the orphan check follows the recorded parent links: every descendant of a completed
+                   \*          context is rejected); FALSE = pinned (only operations registered in THIS invocation are known)
+  AtomicCallback,  \* BOOLEAN: TRUE = code as fixed (a done-callback's status write, counter update and decision run under one lock);
+                   \*          FALSE = pinned original (status write, counter update, should_complete(), scan: separate unprotected steps)
   ResetFirst       \* BOOLEAN: TRUE = code as it is (the timer thread resets a due branch to PENDING BEFORE the refresh checkpoint);
                    \*          FALSE = probe: reset only after the refresh returned (the branch still looks parked meanwhile)
 
@@ -33,6 +37,8 @@ CONSTANTS
 \*               after "tsusp" the script continues when the branch is resubmitted
 \*   maxc : max_concurrency (0 = None); mins : min_successful (0 = None); tolc : tolerated_failure_count (99 = None);
 \*   tolp : tolerated_failure_percentage (999 = None); tfail : BOOLEAN, the timer thread's refresh checkpoint may fail
+\*   pre  : sequence of the branches whose context already exists when the call starts (a re-invocation: the branch is re-entered without a
+\*          new START, so this invocation's parent/child registry never hears of its context)
 VARIABLE cf
 Script == cf.script
 N == Len(cf.script)
@@ -75,12 +81,13 @@ VARIABLES
   suspSnap,            \* snap of the callback that decided to suspend
   resub,               \* branches resubmitted by the timer thread
   chk,                 \* branches whose current checkpoint passed the orphan check and is not enqueued yet
+  chkLate,             \* ... those of them whose check passed although the call's completion record had already been handed over
   tph,                 \* timer thread: [ph |-> "idle" | "refresh" (about to enqueue the empty checkpoint) | "await" (blocked in it), i |-> branch]
   tphAtSusp,           \* history: tph.ph when the suspension was decided ("none" before; "stale" if decided by a stale scan)
   stale                \* history: callbacks whose running should_execution_suspend() scan overlapped a timer pop
 
 vars == <<bst, wph, bpos, sub, fout, scanIdx, scanT, scanI, succ, fail, event, suspExc, timers, mpc, mi, reg, pdone, parentSent,
-          items, reason, active, maxActive, decidedAt, outcomeAt, late, known, result, snap, suspSnap, resub, chk, tph, tphAtSusp, stale>>
+          items, reason, active, maxActive, decidedAt, outcomeAt, late, known, result, snap, suspSnap, resub, chk, chkLate, tph, tphAtSusp, stale>>
 
 Atom(i) == IF bpos[i] <= Len(Script[i]) THEN Script[i][bpos[i]] ELSE "ok"
 
@@ -93,7 +100,7 @@ Init ==
   /\ reg = {} /\ pdone = {} /\ parentSent = FALSE
   /\ items = <<>> /\ reason = "none"
   /\ active = 0 /\ maxActive = 0 /\ decidedAt = <<>> /\ outcomeAt = <<>> /\ late = {} /\ known = {} /\ result = "none"
-  /\ snap = [i \in Br |-> {}] /\ suspSnap = {} /\ resub = {} /\ chk = {}
+  /\ snap = [i \in Br |-> {}] /\ suspSnap = {} /\ resub = {} /\ chk = {} /\ chkLate = {}
   /\ tph = [ph |-> "idle", i |-> 0] /\ tphAtSusp = "none" /\ stale = {}
 
 ---------------------------------------------------------------------------
@@ -178,12 +185,19 @@ MainBuild ==
   /\ UNCHANGED <<bst, wph, bpos, sub, fout, scanIdx, scanT, scanI, succ, fail, event, suspExc, timers, mi, reg, pdone, parentSent,
                  active, maxActive, decidedAt, outcomeAt, late, known, result>>
 
-\* the parent context's SUCCEED passes through create_checkpoint: every registered descendant is marked
-MainParentCkpt ==
+\* the parent context's SUCCEED / FAIL passes through create_checkpoint: under the lock every registered descendant is marked and
+\* the context is remembered as completed (MainParentMark); the put on the queue follows outside the lock (MainParentCkpt)
+ParentMarked == mpc = "ParentPut" \/ parentSent
+MainParentMark ==
   /\ mpc = "ParentCkpt"
-  /\ pdone' = reg /\ parentSent' = TRUE
+  /\ pdone' = reg /\ mpc' = "ParentPut"
+  /\ UNCHANGED <<bst, wph, bpos, sub, fout, scanIdx, scanT, scanI, succ, fail, event, suspExc, timers, mi, reg, parentSent, items, reason,
+                 active, maxActive, decidedAt, outcomeAt, late, known, result>>
+MainParentCkpt ==
+  /\ mpc = "ParentPut"
+  /\ parentSent' = TRUE
   /\ mpc' = "Returned" /\ result' = "returned"
-  /\ UNCHANGED <<bst, wph, bpos, sub, fout, scanIdx, scanT, scanI, succ, fail, event, suspExc, timers, mi, reg, items, reason,
+  /\ UNCHANGED <<bst, wph, bpos, sub, fout, scanIdx, scanT, scanI, succ, fail, event, suspExc, timers, mi, reg, pdone, items, reason,
                  active, maxActive, decidedAt, outcomeAt, late, known>>
 
 ---------------------------------------------------------------------------
@@ -206,7 +220,10 @@ Finish(i, o) == /\ fout' = [fout EXCEPT ![i] = o] /\ wph' = [wph EXCEPT ![i] = "
 
 \* would create_checkpoint reject an update for operation `op` whose parent is `par` ?
 \* (fixed code: also when the parent is marked, or is the completed context itself)
-Rejected(op, par) == op \in pdone \/ (FixOrphanParent /\ (par \in pdone \/ (par = <<"p">> /\ parentSent)))
+\* (every operation of the model is a descendant of the call's context "p": the ancestor walk rejects everything once it completed)
+Rejected(op, par) == \/ op \in pdone
+                     \/ (FixOrphanParent /\ (par \in pdone \/ (par = <<"p">> /\ ParentMarked)))
+                     \/ (FixAncestorWalk /\ ParentMarked)
 
 BSet(i, r, sb, p, f, w, a, l, k) ==
   /\ reg' = r /\ sub' = [sub EXCEPT ![i] = sb] /\ bpos' = [bpos EXCEPT ![i] = p] /\ fout' = [fout EXCEPT ![i] = f]
@@ -225,27 +242,30 @@ IsCkptPhase(i) == sub[i] \in {"ctxStart", "start", "succeed", "wstart"} \/ (sub[
 CkOp(i) == IF sub[i] \in {"start", "succeed", "wstart"} THEN StepOp(i) ELSE Ctx(i)
 CkPar(i) == IF sub[i] \in {"start", "succeed", "wstart"} THEN Ctx(i) ELSE <<"p">>
 \* after a resubmission the branch context exists already: no START is sent for it
-CtxExists(i) == sub[i] = "ctxStart" /\ Ctx(i) \in reg
+CtxExists(i) == sub[i] = "ctxStart" /\ (Ctx(i) \in reg \/ (\E k \in DOMAIN cf.pre : cf.pre[k] = i))
 
 BodyCheck(i) ==
   /\ wph[i] = "run" /\ i \notin chk /\ IsCkptPhase(i) /\ ~CtxExists(i)
   /\ IF Rejected(CkOp(i), CkPar(i))
-       THEN End(i, "orphan", late, known) /\ chk' = chk
+       THEN End(i, "orphan", late, known) /\ chk' = chk /\ chkLate' = chkLate
        \* the operation is registered under its parent inside the same locked section as the check (state.py:436-441)
-       ELSE chk' = chk \cup {i} /\ reg' = reg \cup {CkOp(i)} /\ UNCHANGED <<sub, bpos, fout, wph, active, late, known>>
+       ELSE /\ chk' = chk \cup {i} /\ reg' = reg \cup {CkOp(i)} /\ UNCHANGED <<sub, bpos, fout, wph, active, late, known>>
+            /\ chkLate' = (IF ParentMarked THEN chkLate \cup {i} ELSE chkLate)
 
 \* With the repaired check a passed check means the parent had not completed AT CHECK TIME; if its completion record has been
 \* handed over by the time of the put, the update slipped behind it: tag "...-race" (the named, unrepaired deviation).
 \* On the pinned original a never-seen operation passes the check even after the parent completed: tags "update" / "fn".
 LateTag(i, first) ==
   IF ~parentSent THEN late
+  \* the check itself passed after the completion record (no race): an update accepted under a completed context
+  ELSE IF i \in chkLate THEN late \cup (IF first THEN {<<i, "update">>, <<i, "fn">>} ELSE {<<i, "update">>})
   ELSE IF first /\ ~FixOrphanParent THEN late \cup {<<i, "update">>, <<i, "fn">>}
   ELSE IF first THEN late \cup {<<i, "update-race">>, <<i, "fn-race">>}
   ELSE late \cup {<<i, "update-race">>}
 
 BodyPut(i) ==
   /\ wph[i] = "run" /\ i \in chk
-  /\ chk' = chk \ {i}
+  /\ chk' = chk \ {i} /\ chkLate' = chkLate \ {i}
   /\ CASE sub[i] = "ctxStart" ->
             BSet(i, reg, "atom", bpos[i], fout[i], "run", active, LateTag(i, TRUE),
                  IF parentSent THEN known \cup {IF FixOrphanParent THEN "check-then-put" ELSE "orphan-first-time-op"} ELSE known)
@@ -264,7 +284,7 @@ BodyPut(i) ==
 
 \* body steps that are not checkpoints
 BodyOther(i) ==
-  /\ wph[i] = "run" /\ i \notin chk /\ chk' = chk
+  /\ wph[i] = "run" /\ i \notin chk /\ chk' = chk /\ chkLate' = chkLate
   /\ (~IsCkptPhase(i) \/ CtxExists(i))
   /\ CASE CtxExists(i) -> BSet(i, reg, "atom", bpos[i], fout[i], "run", active, late, known)
        [] sub[i] = "atom" /\ Atom(i) = "step" -> BSet(i, reg, "start", bpos[i], fout[i], "run", active, late, known)
@@ -279,7 +299,7 @@ BodyOther(i) ==
 \* the checkpoint pipeline has failed (cf.tfail): whichever create_checkpoint call the branch makes or is blocked in next raises
 \* BackgroundThreadError - at any point of the body (the scripted "bte" atom is the special case "at an atom boundary")
 BodyPipelineFailed(i) ==
-  /\ cf.tfail /\ wph[i] = "run" /\ i \notin chk /\ chk' = chk
+  /\ cf.tfail /\ wph[i] = "run" /\ i \notin chk /\ chk' = chk /\ chkLate' = chkLate
   /\ End(i, "bte", late, known)
 
 BodyStep(i) ==
@@ -299,12 +319,19 @@ SetEvent == /\ event' = TRUE
             /\ decidedAt' = IF event THEN decidedAt ELSE [i \in Br |-> bst[i]]
             /\ outcomeAt' = IF event THEN outcomeAt ELSE [i \in Br |-> Truth(i)]
 
+CbBusy == \E j \in Br : wph[j] \in {"cbw", "cbd", "scan"}
 \* first half: status write + counter
 CbWrite(i) ==
   /\ wph[i] = "done"
-  /\ CASE fout[i] = "ok" -> /\ bst' = [bst EXCEPT ![i] = "COMPLETED"] /\ succ' = succ + 1 /\ wph' = [wph EXCEPT ![i] = "cbd"]
+  /\ AtomicCallback => ~CbBusy          \* fixed code: callbacks are serialized by a lock held until the decision is taken
+  \* pinned original: exe_state.complete()/fail() makes the status visible BEFORE counters.complete_task()/fail_task() ("cbw")
+  /\ CASE fout[i] = "ok" -> /\ bst' = [bst EXCEPT ![i] = "COMPLETED"]
+                            /\ IF AtomicCallback THEN succ' = succ + 1 /\ wph' = [wph EXCEPT ![i] = "cbd"]
+                                                 ELSE UNCHANGED succ /\ wph' = [wph EXCEPT ![i] = "cbw"]
                             /\ UNCHANGED <<fail, timers, known>>
-       [] fout[i] = "fail" -> /\ bst' = [bst EXCEPT ![i] = "FAILED"] /\ fail' = fail + 1 /\ wph' = [wph EXCEPT ![i] = "cbd"]
+       [] fout[i] = "fail" -> /\ bst' = [bst EXCEPT ![i] = "FAILED"]
+                              /\ IF AtomicCallback THEN fail' = fail + 1 /\ wph' = [wph EXCEPT ![i] = "cbd"]
+                                                   ELSE UNCHANGED fail /\ wph' = [wph EXCEPT ![i] = "cbw"]
                               /\ UNCHANGED <<succ, timers, known>>
        [] fout[i] = "susp" -> /\ bst' = [bst EXCEPT ![i] = "SUSPENDED"] /\ wph' = [wph EXCEPT ![i] = "cbd"]
                               /\ UNCHANGED <<succ, fail, timers, known>>
@@ -325,6 +352,14 @@ CbWrite(i) ==
        ELSE UNCHANGED <<event, suspExc, decidedAt, outcomeAt>>
   /\ UNCHANGED <<bpos, sub, fout, scanIdx, scanT, scanI, mpc, mi, reg, pdone, parentSent, items, reason,
                  active, maxActive, late, result>>
+
+\* pinned original only: the counter update, a separate step after the status became visible
+CbCount(i) ==
+  /\ wph[i] = "cbw"
+  /\ IF fout[i] = "ok" THEN succ' = succ + 1 /\ UNCHANGED fail ELSE fail' = fail + 1 /\ UNCHANGED succ
+  /\ wph' = [wph EXCEPT ![i] = "cbd"]
+  /\ UNCHANGED <<bst, bpos, sub, fout, scanIdx, scanT, scanI, event, suspExc, timers, mpc, mi, reg, pdone, parentSent, items, reason,
+                 active, maxActive, decidedAt, outcomeAt, late, known, result>>
 
 \* second half: should_complete() ?  else start the suspend scan
 CbDecide(i) ==
@@ -397,7 +432,7 @@ TimerRefreshed(ok) ==
   /\ UNCHANGED timers /\ TimerUnch
 
 H3 == UNCHANGED <<snap, suspSnap, resub>>
-H4 == UNCHANGED chk
+H4 == UNCHANGED <<chk, chkLate>>
 \* (the scan reads one status per step: a scan that began before the timer thread popped a branch can finish on stale reads and
 \*  decide to suspend although that branch is being resumed - named "stale": needs a done-callback stalled for the whole wait)
 H5 == /\ UNCHANGED tph
@@ -405,11 +440,12 @@ H5 == /\ UNCHANGED tph
                          THEN (IF \E j \in stale : wph[j] = "scan" /\ wph'[j] # "scan" THEN "stale" ELSE tph.ph)
                          ELSE tphAtSusp)
       /\ stale' = {j \in stale : wph'[j] = "scan"}
-MainStep == (MainSubmit \/ MainWake \/ MainCancel \/ MainRaiseSuspend \/ MainBuild \/ MainParentCkpt) /\ H3 /\ H4 /\ H5
+MainStep == (MainSubmit \/ MainWake \/ MainCancel \/ MainRaiseSuspend \/ MainBuild \/ MainParentMark \/ MainParentCkpt) /\ H3 /\ H4 /\ H5
 WorkerStep(i) ==
   \/ (WorkerTake(i) /\ H3 /\ H4 /\ H5)
   \/ (BodyStep(i) /\ H3 /\ H5)
   \/ (CbWrite(i) /\ snap' = [snap EXCEPT ![i] = {j \in Br : j # i /\ wph[j] = "run"}] /\ UNCHANGED <<suspSnap, resub>> /\ H4 /\ H5)
+  \/ (CbCount(i) /\ H3 /\ H4 /\ H5)
   \/ (CbDecide(i) /\ H3 /\ H4 /\ H5)
   \/ (CbScan(i) /\ suspSnap' = (IF suspExc' # suspExc THEN snap[i] ELSE suspSnap) /\ UNCHANGED <<snap, resub>> /\ H4 /\ H5)
 TimerPopStep(i) == /\ TimerPop(i) /\ resub' = resub \cup {i} /\ UNCHANGED <<snap, suspSnap, tphAtSusp>> /\ H4
@@ -479,6 +515,11 @@ NoDescendantAfterParentDoneStrict == late = {}
 \* no user function of an operation first started after the completion record ever runs (holds on the repaired code)
 NoFunctionAfterParentDone == FixOrphanParent => \A x \in late : x[2] # "fn"      \* (only through the check-then-put race: "fn-race")
 NoKnownOpAfterParentDone == \A x \in late : x[2] \notin {"update"} \/ "orphan-first-time-op" \in known
+
+\* C09: the call does not suspend when the recorded branch outcomes already decide the policy (it returns instead)
+StatusCount(st) == Cardinality({i \in Br : bst[i] = st})
+\* (evaluated when the main thread is about to raise the suspend; a decision taken by a stale scan is the named deviation "stale")
+NoSuspendWhenDecided == (mpc = "RaiseSuspend" /\ tphAtSusp # "stale") => ~ShouldComplete(StatusCount("COMPLETED"), StatusCount("FAILED"))
 
 \* C07: a suspend is raised only when nobody is PENDING/RUNNING
 \* (a branch resubmitted by the timer thread after the deciding branch finished is outside the property's scope; see DESIGN)
